@@ -7,6 +7,7 @@ import (
 
 	"google.golang.org/grpc"
 	"google.golang.org/grpc/codes"
+	"google.golang.org/grpc/metadata"
 	"google.golang.org/grpc/status"
 )
 
@@ -65,6 +66,8 @@ func VerifH_serveHTTP_status() {
 			vfCover("header-then-error")
 		}
 	}
+	hv := vfPlainString(2)
+	srv.setHdr = metadata.MD{"x-h": []string{hv}, "content-type": []string{"forged/type"}}
 	h := http.Header{"Accept": []string{"application/x"}}
 	if twirp {
 		h["Twirp-Version"] = []string{"v7"}
@@ -74,6 +77,12 @@ func VerifH_serveHTTP_status() {
 	mux.ServeHTTP(w, r)
 	vfCheck(w.committed && w.superfluous == 0, "response status not written exactly once")
 	vfCheck(srv.calls == 1, "handler not invoked exactly once")
+	if !fail || srv.sendHdrFirst {
+		// header metadata set by the handler reaches the HTTP client (on success, or once sent explicitly)
+		xh := w.sentHeader["X-H"]
+		vfCheck(len(xh) == 1 && xh[0] == hv, "header metadata set by the handler did not reach the HTTP client")
+		vfCover("http-header-metadata")
+	}
 	ct := w.sentHeader["Content-Type"]
 	if !fail {
 		vfCheck(w.status == 200 && vfBytesEq(w.body, []byte("REPLY")), "successful call not answered 200 with the marshalled reply")
